@@ -56,7 +56,7 @@ def gen_cases(rng, tier):
             i = rng.randrange(len(objs))
             r = rng.random()
             if r < 0.45:
-                ops.append([rng.choice(['pos', 'disp', 'cum', 'dist', 'vol', 'driftcorr', 'msd', 'com', 'metrics', 'transitions']), i])
+                ops.append([rng.choice(['pos', 'disp', 'cum', 'dist', 'vol', 'driftcorr', 'msd', 'com', 'metrics', 'transitions', 'shape']), i])
             elif r < 0.65:
                 L = objs[i]['frames']
                 ops.append(['slice', i, _opt(rng, -L - 2, L + 2), _opt(rng, -L - 2, L + 2), rng.choice([None, None, 1, 2, 3, -1, -2, 0])])
@@ -186,6 +186,19 @@ def impl(case):
                 t.transitions_between_sites(Structure(lattice=lat, species=['Li', 'Li'], coords=[[0.1, 0.1, 0.1], [0.6, 0.6, 0.6]], labels=['A', 'B']),
                                             species[i][0], site_radius=0.8)
             except ValueError:
+                pass
+            mops.append(['QPos', i])
+            results.append(['val', _arr(t.positions)])
+        elif kind == 'shape':
+            # a shape analysis that folds a supercell onto one cell (reads positions; a C-contiguous coordinate array is what constructors and slices hold)
+            from gemdat.shape import ShapeAnalyzer
+            from pymatgen.core import PeriodicSite
+            from pymatgen.symmetry.groups import SpaceGroup
+            lat = t.get_lattice()
+            try:
+                ShapeAnalyzer(sites=[PeriodicSite('Li', [0.1, 0.2, 0.3], lat, label='s')], lattice=lat, spacegroup=SpaceGroup('P-1')).analyze_trajectory(
+                    t, supercell=(2, 1, 2), radius=0.5)
+            except (ValueError, IndexError):
                 pass
             mops.append(['QPos', i])
             results.append(['val', _arr(t.positions)])
